@@ -8,7 +8,7 @@ git apply "$D/patch.diff" || { echo "patch does not apply"; exit 2; }
 trap 'git -C /repo checkout -- . ' EXIT
 export GOFLAGS=-mod=mod GOPROXY=off
 go build ./... || { echo "does not build"; exit 2; }
-cd /verif
+cd /verif; mkdir -p /tmp/mutev; cp /verif/known_findings.json /tmp/mutev/
 PROPS="$@"
 if [ -z "$PROPS" ]; then PROPS=$(./bin/gatecheck -list | awk '{print $1}'); fi
 for p in $PROPS; do
